@@ -378,3 +378,32 @@ def action_polygon3d_plane(ctx):
     ctx.ensure("_plane-contains-the-image-vertices", ctx.conj([on_hyper(ctx, tt._plane.array, rho_cov(T, v)) for v in (a, b, c)]))
     ctx.ensure("_plane-nonzero", ctx.neg(ctx.all_zero(tt._plane.array)))
     ctx.ensure("operand-_plane-untouched", _eq_all(ctx, tri._plane.array, plane_before))
+
+
+@case("C07", "incidence.plane.line.3d", names("t", 4, 4) + names("a", 4) + names("b", 4) + names("h", 4), mode="field",
+      functions=FUN + ["geometer.point.SubspaceTensor.contains", "geometer.point.LineTensor.covariant_tensor"], timeout=300,
+      assumptions=LEAF + ["contains(plane, line) is the zero test of the contraction plane * line.covariant_tensor (read off the code); the contraction of the images is "
+                          "proved proportional to the image M.v of the original contraction v, so it vanishes iff v does (M invertible)"])
+def incidence_plane_line(ctx):
+    """a plane contains a line iff the image plane contains the image line.  The quantities of the originals are asked
+    FIRST (a stale cache carried over to the transformed line by the shallow copy would show here)"""
+    geometer, gt = _g()
+    T = ctx.arr("t", 4, 4)
+    ctx.assume(_det_nonzero(ctx, T))
+    t = gt.Transformation(T)
+    a, b, h = ctx.vec("a", 4), ctx.vec("b", 4), ctx.vec("h", 4)
+    ctx.assume(ctx.neg(dependent(ctx, [a, b])))
+    ctx.assume(ctx.neg(ctx.all_zero(h)))
+    l = _line_pp(ctx, geometer, a, b)
+    H = geometer.Plane(h)
+    with ctx.stubs():
+        c0 = H.contains(l)
+        v0 = tolist((H * l.covariant_tensor).array)
+        spec = ctx.conj([on_hyper(ctx, h, a), on_hyper(ctx, h, b)])
+        ctx.ensure("contains(plane,line)<=>both-generators-on-the-plane", ctx.iff(ctx.conj([c0]) if ctx.symbolic else bool(c0), spec))
+        ctx.ensure("contains(plane,line)==zero-test-of-the-contraction", ctx.iff(ctx.conj([c0]) if ctx.symbolic else bool(c0), ctx.conj([ctx.zero(x) for x in v0])))
+        tl, tH = t * l, t * H
+        v1 = tolist((tH * tl.covariant_tensor).array)
+    ctx.ensure("contraction-of-the-images~image-of-the-contraction", ctx.minors_zero(v1, geo.matvec(tolist(T), v0)))
+    ctx.ensure("covariant-tensor-of-the-image-line-is-p^q-of-the-image-points",
+               ctx.minors_zero(tl.covariant_tensor.array, geo.line3_cov_from_points(rho_cov(T, a), rho_cov(T, b))))
